@@ -60,9 +60,9 @@ CHECKS = {
                      'to-host inverts from-host, and the two preprocessor branches are mirror images.', ref='4.13'),
     'C14': dict(cat='proof', tech='all C01/C02/C04/C06/C09 obligations re-evaluated on big-endian IR',
                 text='Every obligation of C01, C02, C04, C06, C09 (and the VSS codec checks where registered) is discharged again on IR '
-                     'compiled for powerpc64 and - for C01/C02/C04/C06/C09 in the quick tier, for all in the thorough tier - 32-bit mips; specs are expressed in wire octets and host values, so holding '
+                     'compiled for powerpc64 and - for C01/C02/C04/C06/C09 in the quick tier, for all in the thorough tier - 32-bit mips, plus sparc (strict alignment) for the VSS codec; specs are expressed in wire octets and host values, so holding '
                      'on both byte orders is the property.', ref='4.14',
-                note=TB + '; powerpc64/mips IR is taken as representative of big-endian hosts; libc headers are replaced by declarations in stubs/libc'),
+                note=TB + '; powerpc64/mips/sparc IR is taken as representative of big-endian hosts; libc headers are replaced by declarations in stubs/libc'),
     'C17': dict(cat='proof', tech='pairwise equality of measured closed forms across overlay families',
                 text='For each overlay family (common header, ACF common header, stream header, AAF~PCM, full~brief variants) and every '
                      'pair of views the measured read result and write effect of the shared field must be identical.', ref='4.17'),
@@ -134,7 +134,7 @@ CHECKS = {
 IR_CHECKS = ('C01', 'C02', 'C03', 'C04', 'C05', 'C06', 'C07', 'C08', 'C09', 'C10', 'C11', 'C12', 'C15', 'C16', 'C17')
 CONFIGS = (' Build configurations: x86-64 (default flags of CMakeLists.txt), the -DNDEBUG configuration whenever its IR differs '
            'from the default one, and i386 with the front end in -O1 mode (lifetime markers, __OPTIMIZE__, llvm.is.constant), '
-           '__GNUC__ = 12 and unsigned plain char. The functions analysed and their callees are also held '
+           '__GNUC__ = 12 and unsigned plain char; the VSS codec checks C07/C08/C10 also on armv6m (little-endian, no unaligned access). The functions analysed and their callees are also held '
            'against what the public prototypes promise an optimising caller (const/pure/nonnull/aligned attributes vs. the '
            'bodies, macros shadowing functions, argument-evaluation-order hazards: DESIGN.md 4.21).')
 
